@@ -54,6 +54,14 @@ def check_neighbours(prog, rep, m):
     k = interpret(prog, f, strict=False)
     values, mask, conn8, nxp = f.params[0], f.params[1], f.params[2], f.params[3]
     outs = [v for v, g in k.returns if isinstance(v, Arr)]
+    gather = None
+    if not outs and len(k.returns) == 1 and isinstance(k.returns[0][0], Rat):
+        # `return lookup[regions]`: the final relabelling written as one gather
+        ga = _single(k.returns[0][0])
+        if ga is not None and ga.name in ('cell?', 'read', 'getitem') and len(ga.args) >= 2 and isinstance(ga.args[1], Rat) and \
+                _single(ga.args[1]) is not None and _single(ga.args[1]).name == 'arr' and _single(ga.args[1]).args[0] in k.arrays:
+            gather = (ga.args[0], k.arrays[_single(ga.args[1]).args[0]])
+            outs = [gather[1]]
     if len(outs) != 1:
         rep.add('G1', f, entry, 'labelling', f.node.lineno, None, 'returned region array not identified')
         return
@@ -193,9 +201,58 @@ def check_neighbours(prog, rep, m):
     # masked pixels are region 0
     masked0 = any(isinstance(st.value, Rat) and st.value == Rat.const(0) and st.guards for st in sts)
     rep.add('G2', f, entry, 'masked pixels are region 0', f.node.lineno, masked0 or regions.init == 'zeros', '')
-    ok = 'regions[ij]=region_lookup[regions[ij]]' in t and 'new_region_lookup[i]=new_region_lookup[target]' in t and \
-        'new_region_lookup[i]=new_region' in t
-    rep.add('G2', f, entry, 'final lookup applied to every pixel', f.node.lineno, ok, '')
+    # final relabelling: every pixel's id goes through the consolidated lookup (a full loop, or one gather)
+    lk = None
+    if gather is not None:
+        lk, okfin, how = gather[0], True, 'return lookup[regions]'
+    else:
+        fin = [st for st in k.stores if st.arr is regions and st.loops and st.loops[0] is not L and len(st.loops) == 1]
+        okfin, how = False, '%d relabelling stores' % len(fin)
+        if len(fin) == 1:
+            st = fin[0]
+            L3 = st.loops[0]
+            va = _single(st.value) if isinstance(st.value, Rat) else None
+            inner = _single(va.args[1]) if va is not None and va.name in ('cell?', 'read') and len(va.args) >= 2 and isinstance(va.args[1], Rat) else None
+            okfin = L3.kind == 'range' and L3.lo == Rat.const(0) and L3.hi == L.hi and tuple(st.idx) == (Rat.sym(L3.var),) and \
+                not [g for g in st.guards if g != ('const', True)] and inner is not None and inner.name in ('cell?', 'read') and \
+                inner.args[0] == regions.name and inner.args[1] == Rat.sym(L3.var)
+            lk = va.args[0] if okfin else None
+            how = 'regions[ij] = lookup[regions[ij]] for every ij'
+    rep.add('G2', f, entry, 'final lookup applied to every pixel: %s' % how, f.node.lineno, okfin,
+            'merged ids are only consolidated by the final lookup: every pixel must be relabelled through it')
+    # the consolidated lookup: an id that was never merged gets the next dense id, a merged one the id of its target
+    oklk, whylk = None, 'lookup table construction not identified'
+    lst = [st for st in k.stores if st.arr.name == lk and st.loops and len(st.loops) == 1] if lk is not None else []
+    if lst:
+        from fractions import Fraction as Fr
+        from ..kutil import CannotEvaluate, eval_cond_full, evaluate
+        from ..sym import Sym, walk_atoms
+        L2 = lst[0].loops[0]
+        carried = getattr(L2, 'carried', {})
+        cnt = [n_ for n_, (phi_, end_) in carried.items() if any(isinstance(st.value, Rat) and st.value == phi_ for st in lst)]
+        ats = set()
+        for st in lst:
+            ats |= guard_atoms(st.guards) | (walk_atoms(st.value) if isinstance(st.value, Rat) else set())
+        lens = [a for a in ats if isinstance(a, App) and a.name == 'len']
+        rls = [a for a in ats if isinstance(a, App) and a.name in ('read', 'cell?') and a.args[0] != lk and a.args[1] == Rat.sym(L2.var)]
+        if len(cnt) == 1 and len(lens) <= 1 and len(rls) == 1 and all(tuple(st.idx) == (Rat.sym(L2.var),) for st in lst):
+            cphi, cend = carried[cnt[0]]
+            catom = _single(cphi) if _single(cphi) is not None else next(iter(cphi.atoms()))
+            try:
+                res = []
+                for i_, n_, t_ in ((3, 10, 0), (3, 10, 2), (12, 10, 7)):
+                    env = {Sym(L2.var): Fr(i_), rls[0]: Fr(t_), catom: Fr(40), '__read__': lambda key_, idx: 100 + int(idx[0])}
+                    for a in lens:
+                        env[a] = Fr(n_)
+                    vals = [evaluate(st.value, env) for st in lst if all(eval_cond_full(g, env) for g in st.guards)]
+                    target = t_ if i_ < n_ else 0
+                    want = 40 if target == 0 else 100 + target
+                    res.append((vals == [want], evaluate(cend, env) == (41 if target == 0 else 40)))
+                oklk = all(a_ and b_ for a_, b_ in res) and L2.lo == Rat.const(0)
+                whylk = '(value, counter) right for (unmerged, merged into 2, beyond the table): %s' % res
+            except CannotEvaluate as e:
+                oklk, whylk = None, str(e)
+    rep.add('G2', f, entry, 'consolidated lookup: unmerged ids are renumbered densely, merged ids follow their target', f.node.lineno, oklk, whylk)
     mm = m.funcs.get('_min_and_max')
     if mm is not None:
         km = interpret(prog, mm)
@@ -241,6 +298,8 @@ def check_scan(prog, rep, m, R=None):
     if f is None or follow is None:
         raise AnalysisIncomplete('_scan / _follow not found')
     entry = 'polygonize scan'
+    from ..inline import inline_view
+    f = inline_view(prog, f, keep=(follow.name, '_transform_points', '_calculate_regions'))   # follow-then-transform glue reads as if written in place
     k = interpret(prog, f, strict=False)
     evs = list(k.events)
     fcalls = [(n, ev[1]) for n, ev in enumerate(evs) if ev[0] == 'call' and len(ev[1]) > 6 and ev[1][6] is follow]
@@ -811,32 +870,121 @@ def check_misc(prog, rep, m):
     tol = [n for n in ast.walk(ic.node) if isinstance(n, ast.Lambda) and 'abs(' in T(n)]
     ok = len(tol) == 1 and T(tol[0].body) == 'abs(value-reference)<=atol+rtol*abs(reference)'
     rep.add('G6', ic, entry, 'float tolerance |v - r| <= atol + rtol*|r|', ic.node.lineno, ok, '')
-    pn = m.funcs.get('_polygonize_numpy')
-    t = {T(s) for s in pn.own_nodes() if isinstance(s, ast.Assign)}
-    ok = 'ny,nx=values.shape' in t and 'values=values.ravel()' in t and 'mask=mask.ravel()' in t
-    rep.add('G7', pn, entry, 'ny, nx = values.shape; row-major flattening of values and mask', pn.node.lineno, ok,
-            'the flat index ij = j*nx + i assumes row-major order with nx columns')
-    one = [n for n in pn.own_nodes() if isinstance(n, ast.If) and T(n.test) == 'nx==1']
-    ok = len(one) == 1 and {'nx=2', 'values=np.hstack((values,np.empty_like(values)))'} <= {T(s) for s in one[0].body} and \
-        'mask=np.hstack((mask,np.zeros_like(mask)))' in {T(s) for s in ast.walk(one[0]) if isinstance(s, ast.Assign)} and \
-        'mask[:,0]=True' in {T(s) for s in ast.walk(one[0]) if isinstance(s, ast.Assign)}
-    rep.add('G7', pn, entry, 'single-column rasters padded with a masked-out column', pn.node.lineno, ok, '')
+    # G7 on wrapper terms: what the scan receives, case by case (single-column raster or not, mask given or not)
+    from ..wterm import WT, eval_cond, key as tkey, resolve, show as tshow
     pub = m.funcs.get('polygonize')
-    t = {T(s) for s in pub.own_nodes() if isinstance(s, ast.Assign)}
-    ok = 'connectivity_8=connectivity==8' in t and any(isinstance(n, ast.If) and T(n.test) == 'connectivitynotin(4,8)' for n in pub.own_nodes())
-    rep.add('G7', pub, entry, 'connectivity validated; connectivity_8 = (connectivity == 8)', pub.node.lineno, ok, '')
-    c = [x for x in calls(pub.node) if short(x) == '_polygonize_numpy']
-    bound = {}
-    if len(c) == 1:
-        for p_, a_ in zip(pn.params, c[0].args):
-            bound[p_] = T(a_)
-        for k_ in c[0].keywords:
-            bound[k_.arg] = T(k_.value)
-    ok = len(c) == 1 and [bound.get(p_) for p_ in pn.params[:4]] == ['raster.data', 'mask_data', 'connectivity_8', 'transform']
-    rep.add('G7', pub, entry, '_polygonize_numpy(raster.data, mask_data, connectivity_8, transform)', pub.node.lineno, ok, '')
-    sc = [x for x in calls(pn.node) if short(x) == '_scan']
-    ok = len(sc) == 1 and [T(a) for a in sc[0].args] == ['values', 'mask', 'connectivity_8', 'transform', 'nx', 'ny']
-    rep.add('G7', pn, entry, '_scan(values, mask, connectivity_8, transform, nx, ny)', pn.node.lineno, ok, '')
+    scan = m.funcs.get('_scan')
+    if pub is None or scan is None:
+        raise AnalysisIncomplete('polygonize / _scan not found')
+    w = WT(prog, keep=[scan])
+    w.run(pub)
+    sc = [x for x in w.calls if x.callee is scan]
+    if len(sc) != 1 or not sc[0].bound:
+        rep.add('G7', pub, entry, 'scan call', pub.node.lineno, None, '%d calls of the scan with bound arguments' % len(sc))
+        return
+    b = sc[0].bound
+    line = sc[0].node.lineno
+    rname, mname = pub.params[0], pub.params[1]
+    # roles of the scan's parameters by position of its own signature (values, mask, connectivity flag, transform, nx, ny)
+    pv, pm_, pc, pt, pnx, pny = scan.params[:6]
+    env0 = {'raster': ('param', rname), 'mask': ('param', mname)}
+    W = w.expr('raster.data.shape[1]', env0, pub)
+
+    def case(single, masked):
+        def decide(cnd):
+            if cnd[0] == 'cmp' and cnd[1] in ('Eq', 'NotEq') and {tkey(cnd[2]), tkey(cnd[3])} == {tkey(W), tkey(('const', 1))}:
+                return single if cnd[1] == 'Eq' else not single
+            if cnd[0] == 'cmp' and cnd[1] in ('Is', 'IsNot') and {tkey(cnd[2]), tkey(cnd[3])} == {tkey(('param', mname)), tkey(('const', None))}:
+                return (not masked) if cnd[1] == 'Is' else masked
+            return None
+        return {p: resolve(t_, decide) for p, t_ in b.items()}
+
+    def flat(t_):
+        """X if t_ is X.ravel() / X.ravel(order='C') / X.flatten() / X.reshape(-1), else None"""
+        if t_[0] == 'call' and isinstance(t_[1], tuple) and t_[1][0] == 'method' and t_[1][2] in ('ravel', 'flatten', 'reshape'):
+            kws = dict(t_[3])
+            if kws.get('order', ('const', 'C')) != ('const', 'C'):
+                return None
+            if t_[1][2] == 'reshape' and t_[2] not in ((('const', -1),), (('tuple', (('const', -1),)),)):
+                return None
+            if t_[1][2] != 'reshape' and t_[2] not in ((), (('const', 'C'),)):
+                return None
+            return t_[1][1]
+        return None
+    data, mdata = ('data', ('param', rname)), ('data', ('param', mname))
+
+    def extent(t_, axis, single):
+        """a scalar term as a number of rows / columns: 'H' / 'W' (1 when the raster has a single column), ints, or None"""
+        if t_[0] == 'const' and isinstance(t_[1], int):
+            return t_[1]
+        if t_[0] == 'index' and t_[1][0] == 'attr' and t_[1][2] == 'shape' and t_[2][0] == 'const' and t_[2][1] in (0, 1, -1, -2):
+            ax = t_[2][1] % 2
+            return size(t_[1][1], ax, single)
+        return None
+
+    def size(a_, ax, single):
+        if tkey(a_) in (tkey(data), tkey(mdata), tkey(('param', rname))):
+            return ('H' if ax == 0 else (1 if single else 'W'))
+        if a_[0] == 'call' and a_[1] in ('numpy.empty_like', 'numpy.zeros_like', 'numpy.ones_like', 'numpy.full_like') and a_[2]:
+            return size(a_[2][0], ax, single)
+        if a_[0] == 'call' and a_[1] == 'numpy.hstack' and a_[2] and a_[2][0][0] == 'tuple':
+            parts = [size(x, ax, single) for x in a_[2][0][1]]
+            if ax == 0:
+                return parts[0] if len(set(parts)) == 1 else None
+            return sum(parts) if all(isinstance(p_, int) for p_ in parts) else None
+        return None
+    res = []
+    for single in (False, True):
+        for masked in (True, False):
+            cs = case(single, masked)
+            v, mk = flat(cs[pv]), (flat(cs[pm_]) if cs[pm_] != ('const', None) else 'none')
+            okv = v is not None and (tkey(v) == tkey(data) if not single else
+                                     (v[0] == 'call' and v[1] == 'numpy.hstack' and v[2] and v[2][0][0] == 'tuple' and len(v[2][0][1]) == 2 and
+                                      tkey(v[2][0][1][0]) == tkey(data)))
+            oknx = extent(cs[pnx], 1, single) == (2 if single else 'W') and extent(cs[pny], 0, single) == 'H'
+            if masked and not single:
+                okm = mk not in (None, 'none') and tkey(mk) == tkey(mdata)
+            elif masked and single:
+                okm = mk not in (None, 'none') and mk[0] == 'call' and mk[1] == 'numpy.hstack' and mk[2] and mk[2][0][0] == 'tuple' and \
+                    len(mk[2][0][1]) == 2 and tkey(mk[2][0][1][0]) == tkey(mdata) and mk[2][0][1][1][0] == 'call' and \
+                    mk[2][0][1][1][1] in ('numpy.zeros_like', 'numpy.zeros')
+            elif not masked and not single:
+                okm = mk == 'none'
+            else:
+                # no mask given, padded raster: an all-False mask whose first column is set
+                okm = mk not in (None, 'none') and mk[0] == 'call' and mk[1] in ('numpy.zeros_like', 'numpy.zeros') and \
+                    any(st[0][0] == 'index' and tkey(st[0][1]) == tkey(mk) and st[1] == ('const', True) and
+                        st[0][2] == ('tuple', (('slice', None, None, None), ('const', 0))) for st in w.stores)
+            res.append(((single, masked), okv, oknx, okm))
+    bad = [r for r in res if not (r[1] and r[2] and r[3])]
+    rep.add('G7', pub, entry, 'scan receives the row-major flattened raster and mask, nx = columns, ny = rows; a single column is '
+            'padded with a masked-out second column', line, not bad,
+            'the flat index ij = j*nx + i assumes row-major order with nx columns; (single column, mask given) -> '
+            '(values, nx/ny, mask) ok: %s' % [(r[0], r[1], r[2], r[3]) for r in res])
+    cpar = next((p for p in pub.params if 'connectivity' in p), None)
+    okc = cpar is not None and tkey(b[pc]) == tkey(w.expr('c == 8', {'c': ('param', cpar)}, pub))
+    raised = {}
+    for v_ in (4, 8, 6, 0):
+        hit = False
+        for guards, node in w.raises:
+            try:
+                if ("('param', '%s')" % cpar) in repr(guards[-1]) and eval_cond(guards[-1], {cpar: v_}):
+                    hit = True
+            except (ValueError, KeyError):
+                pass
+        raised[v_] = hit
+    rep.add('G7', pub, entry, 'connectivity validated; 8-connectivity flag = (connectivity == 8)', line,
+            okc and raised == {4: False, 8: False, 6: True, 0: True}, 'flag %s; raises for %s' % (tshow(b[pc], 60), sorted(k_ for k_, h in raised.items() if h)))
+    tpar = next((p for p in pub.params if 'transform' in p), None)
+    def tcase(given):
+        def decide(cnd):
+            if cnd[0] == 'cmp' and cnd[1] in ('Is', 'IsNot') and {tkey(cnd[2]), tkey(cnd[3])} == {tkey(('param', tpar)), tkey(('const', None))}:
+                return (not given) if cnd[1] == 'Is' else given
+            return None
+        return resolve(b[pt], decide)
+    okt = tpar is not None and tkey(tcase(True)) in (tkey(('param', tpar)), tkey(w.expr('np.asarray(t)', {'t': ('param', tpar)}, pub))) and \
+        tkey(tcase(False)) in (tkey(('param', tpar)), tkey(('const', None)))
+    rep.add('G7', pub, entry, 'the caller\'s transform reaches the scan', line, okt, tshow(b[pt], 100))
 
 
 def check(prog, rep):
